@@ -1415,7 +1415,7 @@ impl Property for C12 {
     }
 
     fn work_factor(&self) -> Option<u64> {
-        Some(512)
+        Some(256)
     }
     fn rule(&self) -> String {
         "Each run stores 1..5 generated files (distfiles incl. DIST_SUBDIR names with colliding tails and patch \
